@@ -1,6 +1,62 @@
 """C28 (RPC client), C29 (agent log pipe), C34 (Serf lifecycle): small concurrency properties.
 spec/RPCClient.tla, spec/LogPipe.tla, spec/Lifecycle.tla; driver harness/cmd/conc; scheduler harness/internal/concx."""
 PROPS = ["C28", "C29", "C34"]
+# id: (level, what the check establishes, trusted base / assumptions, technique, DESIGN.md section)
+_TECH = ('TLA+ spec + TLC exhaustive check of all interleavings of small programs; systematic schedule enumeration of the '
+         'yield-instrumented real code by a cooperative scheduler (child processes, panics recorded); TLC trace validation '
+         '(subset construction over unlogged locals) with property monitors on the observed state')
+CLAIMS = {
+    'C28': (
+        'model_checking',
+        'TLC checks spec/RPCClient.tla exhaustively (listener against 1-2 user threads doing Stop / Close / feed on 1-2 stream, '
+        'monitor or query subscriptions with up to 3 records on the wire, every interleaving at statement / lock-scope '
+        'granularity): no panic, no send after close, every subscriber channel closed exactly once -- except for the recorded '
+        'finding, which must be reachable in the model and is tagged record_in_flight_at_close; scenarios with nothing in flight '
+        'hold without waiver.  The real client.RPCClient, yield-instrumented from the working tree and talking to a scripted '
+        'loopback msgpack server, is run under every schedule with <= 1 preemption up to a budget (thorough also <= 2) plus '
+        'random schedules; its own listen goroutine is scheduled too; each step is validated by TLC against the spec and the '
+        'C28 monitor evaluated on the observed channels (closed?, values received) and on process survival.',
+        'Trusts TLC, the instrumenter, the scheduler (goroutine states from runtime.Stack decide blocked-in-runtime), the scripted '
+        'server.  Known finding: send on a subscriber channel closed by Stop/Close between lookup and send (panic in the listen '
+        'goroutine).  Subscriptions are initialised before the run; channel capacity 64.',
+        _TECH, '5 C28',
+    ),
+    'C29': (
+        'model_checking',
+        'TLC checks spec/LogPipe.tla exhaustively (GatedWriter: 1-3 writers x 1-3 lines against Flush with the buffered append '
+        'as read-modify-write; logWriter ring of size 1-3: 1-3 writers against RegisterHandler): every line reaches the output '
+        'exactly once, pre-gate lines precede lines written after Flush was called, the monitor receives the last <= N lines '
+        'oldest first and then every later line exactly once (linearisation over call intervals) -- except for the two recorded '
+        'findings (tags write_during_flush, overlapping_writes), each reachable in the model.  The real GatedWriter and logWriter, '
+        'yield-instrumented from the working tree (the racy append split into load/store), are run under every schedule with <= 2 '
+        'preemptions up to a budget plus random ones; each step is validated against the spec with the C29 monitor on the observed '
+        'output lines and monitor lines.',
+        'Trusts TLC, the instrumenter (incl. the load/store split of the racy append, an execution the Go memory model allows), '
+        'the scheduler.  Reading: "written before the gate opened" = Write returned before Flush was invoked; "later" = Write '
+        'invoked after Flush was invoked.  Log lines are non-empty.  Two known findings (overtaking during replay; lost line).',
+        _TECH, '5 C29',
+    ),
+    'C34': (
+        'model_checking',
+        'TLC checks spec/Lifecycle.tla exhaustively (2-5 threads with 1-5 calls of Join / Leave / Shutdown / State, every '
+        'interleaving at statement / lock-scope granularity): State() only moves forward, a repeated Shutdown returns nil, a Leave '
+        'after a completed Leave returns nil, a Join invoked after a state change was visible is refused.  A real quiet serf node '
+        '(in-process transport, optionally with a joined peer) with yield-instrumented Serf.Leave/Shutdown/Join/State is run under '
+        'every schedule with <= 1 preemption up to a budget, a sample with <= 2, plus random ones; State() is sampled after every '
+        'step and every step validated against the spec with the C34 monitor on samples and call results.',
+        'Trusts TLC, the instrumenter, the scheduler.  Readings: "a leave or shutdown had begun" = its state change was observable '
+        'before Join was invoked; "leave after a completed leave" = with no Shutdown invoked before it returned (after Shutdown, '
+        'Leave returns an error).  The memberlist panic "leave after shutdown" (Leave racing Shutdown) is survived and counted, '
+        'not part of C34.',
+        _TECH, '5 C34',
+    ),
+}
+# findings of this family as proposed for known_findings.json (the lead integrates them); used only to list new kinds first
+PROPOSED = [
+    ("C29", {"C29_pregate_order"}, {"write_during_flush"}),
+    ("C29", {"C29_out_missing"}, {"overlapping_writes"}),
+    ("C28", {"C28_panic", "C28_send_after_close"}, {"record_in_flight_at_close"}),
+]
 import json
 import os
 import random
@@ -234,6 +290,13 @@ def confirm(ctx, prop, binary, module, cfg, tp, rep, scens, per_kind=2):
     return viol
 
 
+def proposed_last(prop, viol):
+    """Violations that are not one of the family's recorded findings first (they are what a reader must see)."""
+    def is_prop(v):
+        return any(p == prop and set(v["clauses"]) <= c and t <= set(v["tags"]) for p, c, t in PROPOSED)
+    return [v for v in viol if not is_prop(v)] + [v for v in viol if is_prop(v)]
+
+
 def replay_only(ctx, prop, binary, module, cfg, replay):
     v = json.load(open(replay))
     rp = os.path.join(ctx.scratch, "replay.ndjson")
@@ -275,7 +338,7 @@ def c29_scenarios(rng, thorough):
         {"prog": [[rw(1), rw(2), rw(3)], [rw(4)], [REG]], "n": 3},
     ]
     extra = []
-    for _ in range(24 if thorough else 6):
+    for _ in range(24 if thorough else 4):
         # random shapes: 1-3 writers with 1-3 lines each (<= 5 lines), Flush / RegisterHandler at a random position
         kind = rng.choice(["gate", "ring"])
         nw = rng.randint(1, 3)
@@ -322,11 +385,11 @@ def run_c29(ctx, replay):
     else:
         mc = c29_model(ctx, thorough)
         scens = c29_scenarios(random.Random(ctx.seed), thorough)
-        args = ["-procs", "1", "-maxpre", "3" if thorough else "2", "-budget", "1500" if thorough else "120",
-                "-random", "60" if thorough else "12"]
+        args = ["-procs", "1"] + (["-maxpre", "3", "-budget1", "600", "-budget", "600", "-random", "60"] if thorough else
+                                  ["-maxpre", "2", "-budget1", "50", "-budget", "10", "-random", "8"])
         summary, rep, viol = explore_and_validate(ctx, "C29", binary, scens, "Trace_LogPipe", TRACE_CFG, args,
                                                   chunks=6 if thorough else 4)
-    new, known = vlib.classify(ctx.prop, viol)
+    new, known = vlib.classify(ctx.prop, proposed_last(ctx.prop, viol))
     cov = {
         "states": mc.distinct if mc else 1, "transitions": mc.generated if mc else 1, "exhaustive": bool(mc),
         "model_constants": ("gate: 1 writer x 3 lines, 2 writers x 2 lines, 3 writers x 1 line, each with a Flush thread; ring sizes "
@@ -440,10 +503,10 @@ def run_c28(ctx, replay):
         mc = c28_model(ctx, thorough)
         scens = c28_scenarios(random.Random(ctx.seed), thorough)
         args = ["-procs", "2"] + (["-maxpre", "2", "-budget1", "700", "-budget", "300", "-random", "40"] if thorough else
-                                  ["-maxpre", "1", "-budget1", "80", "-random", "10"])
+                                  ["-maxpre", "1", "-budget1", "60", "-random", "8"])
         summary, rep, viol = explore_and_validate(ctx, "C28", binary, scens, "Trace_RPCClient", RPC_CFG, args,
                                                   chunks=6 if thorough else 4)
-    new, known = vlib.classify(ctx.prop, viol)
+    new, known = vlib.classify(ctx.prop, proposed_last(ctx.prop, viol))
     cov = {
         "states": mc.distinct if mc else 1, "transitions": mc.generated if mc else 1, "exhaustive": bool(mc),
         "model_constants": "listener + 1-2 user threads (Stop / Close / feed, <= 2 calls each), 1-2 subscriptions "
@@ -510,7 +573,7 @@ def run_c34(ctx, replay):
         mc = c34_model(ctx, thorough)
         scens = c34_scenarios(random.Random(ctx.seed), thorough)
         args = ["-procs", "4"] + (["-maxpre", "2", "-budget1", "800", "-budget", "400", "-random", "60"] if thorough else
-                                  ["-maxpre", "2", "-budget1", "140", "-budget", "30", "-random", "15"])
+                                  ["-maxpre", "2", "-budget1", "80", "-budget", "15", "-random", "10"])
         summary, rep, viol = explore_and_validate(ctx, "C34", binary, scens, "Trace_Lifecycle", LC_CFG, args,
                                                   chunks=6 if thorough else 4)
         tp = os.path.join(ctx.scratch, "trace.ndjson")
@@ -519,7 +582,7 @@ def run_c34(ctx, replay):
         for ln in f:
             if '"ret":"panic_ml"' in ln:
                 ml_panics += 1
-    new, known = vlib.classify(ctx.prop, viol)
+    new, known = vlib.classify(ctx.prop, proposed_last(ctx.prop, viol))
     cov = {
         "states": mc.distinct if mc else 1, "transitions": mc.generated if mc else 1, "exhaustive": bool(mc),
         "model_constants": "programs over join/leave/shutdown/state: {LL | SS | J St}, {L J | S L | St St}, {J L S | St J}, "
